@@ -243,6 +243,7 @@ structure Stats where
   guard : Nat := 0
   alloc : Nat := 0
   sdrop : Nat := 0
+  seq : Nat := 0
   edrop : Nat := 0
   oracle : Nat := 0           -- property violations found by comparing the measurement with the model's prediction
   cachedLens : Nat := 0       -- cases whose value caches at least one length
@@ -364,6 +365,29 @@ def obsEDrop (ws : List String) : Option (String × List Arg × List StmtOp) := 
       | some (_, _, _, rest) => toString ((record.length + 3) - rest.length)
   some (s!"dropped={dropped} reserved={res} consumed={consumed}", args, ops)
 
+/-- `seq`: one statement of a sequence through the real backend, whose single argument store is shared by all
+    statements of all threads and loggers. The model decodes the record with `decodeStatement` starting from the store the
+    *model* reached after the previous `seq` line (which `C04_store_per_statement` shows to be irrelevant) and reports
+    what the store holds when the statement is formatted: number of values and the string-related flag. Fields the
+    harness could not observe for this statement (`-`: several statements were polled together) are not compared. -/
+def obsSeq (ws rhs : List String) (prev : Store) : Option (String × Store × List Arg) := do
+  let args ← parseArgList (kv ws "a")
+  let f := Extracted.frame
+  let c := Cache.init Extracted.cacheInlineCap
+  let res := reserved f c args false
+  let hdr : Bytes := List.replicate f.header 0
+  let tail : Bytes := [1, 2, 3]
+  let dash (k v : String) : String := if kv rhs k == "-" then "-" else v
+  match writeRecord fill c 0 hdr args [] with
+  | none => some (s!"reserved={res} consumed=fault store=fault", prev, args)
+  | some record =>
+    match decodeStatement (shapesOf args) f.header (record.drop f.header ++ tail) prev with
+    | none => some (s!"reserved={res} consumed=fault store=fault", prev, args)
+    | some (st, rest) =>
+      let consumed := (record.length + tail.length) - rest.length
+      some (s!"reserved={res} consumed={dash "consumed" (toString consumed)} store={dash "store" s!"{st.vals.length},{if st.stringRelated then 1 else 0}"}",
+            st, args)
+
 def obsSan (ws : List String) : Option String := do
   let h := kv ws "in"
   let b ← if h == "." then some [] else bytesOfHex h.toList
@@ -413,6 +437,7 @@ def run : IO UInt32 := do
   let lines ← Drv.readLines stdin
   let mut st : Stats := {}
   let mut thread : Option Frontend := none   -- C11: the model's state of the calling thread (see `allocPre`)
+  let mut bstore : Store := Store.empty      -- C04: the model's state of the backend's shared argument store (`obsSeq`)
   let mut lineNo := 0
   for line in lines do
     lineNo := lineNo + 1
@@ -478,6 +503,13 @@ def run : IO UInt32 := do
               st := { st with problems := st.problems + 1 }
             st := { st with nontrivial := st.nontrivial + (if (lensL args).length > 0 then 1 else 0) }
             pure (some m)
+        | "seq" =>
+          match obsSeq rest rhs bstore with
+          | none => pure none
+          | some (m, st', args) =>
+            bstore := st'
+            st := { st with seq := st.seq + 1, nontrivial := st.nontrivial + (if args.isEmpty then 1 else 0) }
+            pure (some m)
         | "edrop" =>
           match obsEDrop rest with
           | none => pure none
@@ -520,7 +552,7 @@ def run : IO UInt32 := do
     | _ =>
       IO.println s!"BAD-LINE {lineNo}: {(line.take 120).toString}"
       st := { st with problems := st.problems + 1 }
-  IO.println s!"TRACE codec arg={st.arg} stmt={st.stmt} e2e={st.e2e} san={st.san} guard={st.guard} alloc={st.alloc} sdrop={st.sdrop} edrop={st.edrop} model_oracle_hits={st.oracle} cached_lengths={st.cachedLens} nested={st.nested} start_index_positive={st.startIdxPos} cache_grew={st.grew}"
+  IO.println s!"TRACE codec arg={st.arg} stmt={st.stmt} e2e={st.e2e} san={st.san} guard={st.guard} alloc={st.alloc} sdrop={st.sdrop} edrop={st.edrop} seq={st.seq} model_oracle_hits={st.oracle} cached_lengths={st.cachedLens} nested={st.nested} start_index_positive={st.startIdxPos} cache_grew={st.grew}"
   IO.println s!"DONE cases={st.cases} mismatches={st.mismatches} problems={st.problems} nontrivial={st.nontrivial}"
   return (if st.mismatches + st.problems == 0 then 0 else 1)
 
